@@ -8,7 +8,7 @@ from ..util import iso
 
 LEVEL = "exploration"
 RULE = ("complete walk of the vocabulary read as data: for each of the 205 languages every listed month and weekday name, and for "
-        "each of the 299 regional locales every locale-specific addition plus one inherited name per key, under NORMALIZE on and "
+        "each of the 299 regional locales every listed name (inherited ones included; a language and its regional locales are walked in one process), under NORMALIZE on and "
         "off; a name is asserted only when its lookup form (lower case, accent-stripped exactly when NORMALIZE is on) occurs "
         "under exactly one dictionary-feeding key of the merged locale data (merge computed by the harness). Month names: "
         "'D <name> YYYY' for D in {1,13,28} (thorough 1..28) x years {2015} (thorough 1987, 2015, 2032) must give that date; "
@@ -26,6 +26,8 @@ ANCHORS = [("dateparser.languages.dictionary", "Dictionary.__init__"),
 
 
 def shards(tier, seed):
+    # sharded by language: a language and all its regional locales are walked in one process, in index order,
+    # so that what an earlier locale of the language leaves behind is seen by the later ones
     return [{"i": i, "k": 15} for i in range(15)]
 
 
@@ -44,10 +46,6 @@ def entries():
                     continue
                 seen.add(w)
                 inherited = parent is not None and w in (parent.get(key, []) or [])
-                if inherited:
-                    if took_inherited:
-                        continue
-                    took_inherited = True
                 out.append((lang, loc, key, w, inherited))
     return out
 
@@ -153,7 +151,12 @@ def run_shard(ctx, desc):
     try:
         ents = entries()
         ctx.count("vocabulary_entries_total_in_shard0", len(ents) if desc["i"] == 0 else 0)
-        mine = ents[desc["i"]::desc["k"]]
+        langs_in_order = []
+        for e in ents:
+            if e[0] not in langs_in_order:
+                langs_in_order.append(e[0])
+        my_langs = set(langs_in_order[desc["i"]::desc["k"]])
+        mine = [e for e in ents if e[0] in my_langs]
         if ctx.tier == "quick":
             days, years = [1, 13, 28], [2015]
             refs = [datetime(2021, 6, 10, 10, 30), datetime(2021, 6, 16, 0, 0), datetime(2021, 6, 21, 23, 59)]
